@@ -48,6 +48,18 @@ def main():
         rc0, out0 = run_demo(sd, wt)
         res["demo_without_patch_rc"] = rc0
         rc, out = sh(["git", "-C", wt, "apply", os.path.join(sd, "patch.diff")])
+        head = sh(["git", "-C", "/repo", "rev-parse", "--short", "HEAD"])[1].strip()
+        base = meta.get("base_commit")
+        if rc != 0 and base:
+            # /repo moved on (fix: commits) and the patch no longer applies to HEAD: use the commit it was made against
+            sh(["git", "-C", wt, "checkout", "-q", "--detach", base])
+            rc, out = sh(["git", "-C", wt, "apply", os.path.join(sd, "patch.diff")])
+            res["applied_to"] = base
+        elif rc == 0:
+            res["applied_to"] = head
+            if not base:
+                meta["base_commit"] = head
+                json.dump(meta, open(os.path.join(sd, "meta.json"), "w"), indent=1)
         res["patch_applies"] = rc == 0
         if rc != 0:
             res["apply_output"] = out[-2000:]
